@@ -641,6 +641,11 @@ def c15(a):
         jobs.append(lambda t2=t2, k=k: (t2,) + pipeline.fuzz_replay(
             t2, ["fuzz-expr", "--family", "mixed", "--n", str(n // 6), "--stream", str(k), "--max-operands", "60"],
             ["--forward-all", "--ghosts"], mode="consume"))
+    # one variable occurring up to 300 times (occurrence counters: 255 | 256 | 257)
+    for k in range(1 if q else 4):
+        t2 = f"C15/fuzz-repeat-{k}"
+        jobs.append(lambda t2=t2, k=k: (t2,) + pipeline.fuzz_replay(
+            t2, ["fuzz-expr", "--family", "repeat", "--n", "12", "--stream", str(k)], ["--forward-all"], mode="consume"))
     good = []
     for t2, s2, p2 in parallel(jobs):
         if s2.get("crashed"):
@@ -651,7 +656,8 @@ def c15(a):
             v.cov["evaluations"] += s2["runs"]
     parallel([(lambda t2=t2, p2=p2: simple_judged(v, t2, p2, "Judge_Consume", what)) for t2, p2 in good], 6)
     v.notes.append("direction B: random expressions up to 60 operands / 40 variables with repeated occurrences, folded and unfolded, "
-                   "each also with one or two listed-but-absent variables (sorting first / last)")
+                   "each also with one or two listed-but-absent variables (sorting first / last); one variable occurring 2..300 times "
+                   "(254, 255, 256, 257, 258 among them)")
     v.cov["rule"] = "all sequences over {literal, a, b, c} of length <= L (exhaustive); non-trivial = at least one variable"
     v.cov["distinct_nontrivial"] = summ["cases"]
     v.cov["exhaustive"] = True
@@ -1383,6 +1389,8 @@ def c20(a):
         return " ".join(f"x{j % 5 + 1}" + (f" {ops[(j * 7 + nn) % len(ops)]}" if j < nn - 1 else "") for j in range(nn))
     cfgrec = {"table": t8_table_json(), "texts": [vlib.cps(t) for t in texts], "table2": table2, "texts2": [vlib.cps(t) for t in texts2],
               "bigtexts": [vlib.cps(bigtext(70)), vlib.cps(bigtext(135))],
+              # 60 nesting levels: with 16 threads about a thousand nested evaluations of the deep form are in flight
+              "deeptext": vlib.cps("".join(("x1 + (" if j % 2 == 0 else "x2 * (") for j in range(60)) + "x1" + ")" * 60),
               "ftexts": ["x*2+sin(y)/(1+z^2)", "atan2(a, b) - max(1, min(a, b))", "1/3+2/7"]}
     runs = 6 if q else 60
     def one(k):
